@@ -374,6 +374,8 @@ func someWrapperSize(n int) uint32 {
 type BlobValue struct {
 	ID  uint64
 	Pad uint32
+	// FailStorable: Storable() returns an error (carried by the value itself, so that concurrent clients do not share a switch)
+	FailStorable bool
 }
 
 var _ atree.Value = BlobValue{}
@@ -411,6 +413,9 @@ func (v BlobValue) ChildStorables() []atree.Storable                   { return 
 func (v BlobValue) CanCopyNonRefSimple() bool                          { return true }
 func (v BlobValue) CopyNonRefSimple() (atree.Storable, error)          { return v, nil }
 func (v BlobValue) Storable(st atree.SlabStorage, addr atree.Address, max uint32) (atree.Storable, error) {
+	if v.FailStorable {
+		return nil, ErrBlob // a caller-supplied value that cannot be turned into a storable
+	}
 	if v.ByteSize() > max {
 		return atree.NewStorableSlab(st, addr, v, v.ByteSize())
 	}
